@@ -1,5 +1,6 @@
 import OpcuaModel.Base.Loop
 import OpcuaModel.Model.ClientResp
+import OpcuaModel.Model.ClientRespRepairs
 /-
   Driver for C21.
     op  <op> <kind> <nReq> <results> <val> <chain> <flags> <notifs>  → <value|error|panic> <delivered|->
@@ -87,7 +88,7 @@ def handle : List String → String
           let d := publishDelivered s
           if d.isEmpty then "-" else String.ofList (d.map fun b => if b then 'v' else 'e')
         else "-"
-      if cmd == "op" then s!"{outcomeName (outcome op s)} {deliv}"
+      if cmd == "op" then s!"{outcomeName (outcomeR repairedSigs op s)} {deliv}"
       else if cmd == "sig" then (sigOf op s).getD "-"
       else "bad-op"
     | _, _, _, _, _, _, _ => "bad-op"
